@@ -641,7 +641,13 @@ def walk(sd, cfg, visit, node=None, path="", visit_cfg=None):
                     walk(sd, item, visit, inode, "%s[%d]" % (p, i), visit_cfg)
                 else:
                     visit("%s[%d]" % (p, i), f["item"], item)
-    for key, value in cfg:
+    try:
+        extras = [(key, value) for key, value in cfg]
+    except Exception as exc:  # noqa: BLE001 - a configuration that cannot be enumerated (a changed tree may break it): the
+        if type(exc).__name__ == "SeamGap":      # snapshots record that; here there is simply nothing more to visit
+            raise
+        extras = []
+    for key, value in extras:
         if key not in declared:
             name = key if isinstance(key, str) else repr(key)   # e.g. bytes keys from a BSON document
             visit((path + "." if path else "") + name, {"kind": "any", "o": {}, "dynamic": True, "rawkey": name}, value)
